@@ -8,49 +8,49 @@ HERE = os.path.dirname(os.path.dirname(os.path.abspath(__file__)))
 # id -> (built?, technique, level text, level note, design ref)
 CHECKS = {
  "C20": (True, "differential exhaustive exploration across six separately built feature configurations; transcripts compared record by record",
-         "The probe is built six times ({none, alloc, std} x {half, no half} for minicbor and minicbor-serde) and runs the same corpus (all byte strings up to the bound, hostile heads, all small trees and their deviations) through ~85 decoding, encoding, length and serde operations; every (operation, input) record (value digest, error class, position) must equal the std+half record except for exactly the documented differences, which are evaluated on the parsed item (indefinite-in-definite nesting without alloc, indefinite strings / collect_str in the bridge without alloc, half items without half). The script includes the public error algebra (every constructor x at / with_message) and an Encode impl that annotates errors, over too-small slices.",
+         "The probe is built six times ({none, alloc, std} x {half, no half} for minicbor and minicbor-serde) and runs the same corpus (all byte strings up to the bound, hostile heads, all small trees and their deviations) through ~85 decoding, encoding, length and serde operations; every (operation, input) record (value digest, error class, position) must equal the std+half record except for exactly the documented differences, which are evaluated on the parsed item (indefinite-in-definite nesting without alloc, indefinite strings / collect_str in the bridge without alloc, half items without half). The script includes the public error algebra (every constructor x at / with_message) and an Encode impl that annotates errors, over too-small slices. Scale points: corpus inputs nested 256 and 65536 deep and containers / strings of 256 and 65536 elements; error positions beyond 2^32.",
          "trusted: refmodel parser for the rewrite predicates; only x86_64 is installed (32-bit branches not built)", "5/C20"),
  "C17": (True, "exhaustive enumeration of a serde type family (13 wrapper shapes x ~50 leaf types incl. second-level wrappers and zero-copy leaves, compiled) x small value domains against an independent reference Serializer",
-         "Every Wrapper<Leaf> instantiation spanning every Serializer/Deserializer method and all four serde enum representations plus flatten is serialised with the bridge: the bytes must be one well-formed item equal to the preferred serialisation produced by an independent reference Serializer of the documented representation; deserialising (as produced, with a trailing byte, with each head widened, with indefinite top-level containers and unknown extra struct fields) must return an equal value, consume exactly the item and re-serialise identically. Every value also goes through a stream [5, v, 6, v] in which the Serializer / Deserializer is built from a native Encoder / Decoder in mid-stream and turned back into one.",
+         "Every Wrapper<Leaf> instantiation spanning every Serializer/Deserializer method and all four serde enum representations plus flatten is serialised with the bridge: the bytes must be one well-formed item equal to the preferred serialisation produced by an independent reference Serializer of the documented representation; deserialising (as produced, with a trailing byte, with each head widened, with indefinite top-level containers and unknown extra struct fields) must return an equal value, consume exactly the item and re-serialise identically. Every value also goes through a stream [5, v, 6, v] in which the Serializer / Deserializer is built from a native Encoder / Decoder in mid-stream and turned back into one. Scale points: 128 .. 256 tuples / fixed arrays in one document, values nested 129 and 257 deep (hundreds of nodes: every k-th single deviation, at most ~200).",
          "trusted: serde_family::refser (reference Serializer), serde itself; char / unit under internally tagged, untagged and flatten recorded as known findings", "5/C17"),
  "C18": (True, "exhaustive enumeration of shared-data-model types x values x re-framings, differential between the native codec and the serde bridge",
-         "For 31 types of the shared data model and every small-domain value: native Encode and the bridge produce identical bytes; every re-framing with up to two wider heads must decode to the same value on both sides; for every indefinite-container / chunked-string re-framing each side returns that value or an error, never another value. The two sides also take turns on one stream (native then bridge, bridge then native, Deserializer::from(decoder) / into_decoder() in mid-stream) and must consume the same number of bytes for every re-framing.",
+         "For 31 types of the shared data model and every small-domain value: native Encode and the bridge produce identical bytes; every re-framing with up to two wider heads must decode to the same value on both sides; for every indefinite-container / chunked-string re-framing each side returns that value or an error, never another value. The two sides also take turns on one stream (native then bridge, bridge then native, Deserializer::from(decoder) / into_decoder() in mid-stream) and must consume the same number of bytes for every re-framing. Scale points: 128 .. 256 tuples / fixed arrays in one document, sequences nested 129 and 257 deep.",
          "trusted: equality of Rust values (PartialEq); NaN excluded from the float domains", "5/C18"),
  "C08": (True, "exhaustive enumeration of a compiled schema grammar (programs) x values against an interpreter of the documented wire format",
-         "About 1000 (quick) type definitions covering index sets with gaps and permutations, array/map at type, enum and variant level, tags at every level, every field type (borrowed, bytes, nested, generic, custom nil-aware codecs, indefinite-array types), transparent, skip, index_only and 23/24/25 fields are compiled with the real derive macros; for every presence combination and boundary value the bytes must equal the preferred serialisation of the documented format computed by a schema interpreter that never sees names, declaration order or n/b.",
+         "About 1000 (quick) type definitions covering index sets with gaps and permutations, array/map at type, enum and variant level, tags at every level, every field type (borrowed, bytes, nested, generic, custom nil-aware codecs, indefinite-array types), transparent, skip, index_only and 23/24/25 fields are compiled with the real derive macros; for every presence combination and boundary value the bytes must equal the preferred serialisation of the documented format computed by a schema interpreter that never sees names, declaration order or n/b. Scale points: 12-field tuple structs / variants (with a skipped field), 257-field map and array definitions, indices to u32::MAX (map encoding), tags to u64::MAX.",
          "trusted: refmodel::schema::schema_encode (written from minicbor-derive's 'CBOR encoding' documentation); the generator and the interpreter share one schema value", "5/C08"),
  "C09": (True, "exhaustive enumeration of compiled schemas x values x re-framings (<= 2 deviations) and single-point damage, against a reference decoder of the documented rules",
-         "Every value of every compiled schema is decoded back as produced, with a trailing byte and in every re-framing with up to two deviations (indefinite containers, wider heads): equal value, exact consumption, borrowed fields inside the input. Every single-point damage (tag bumped/removed, array shortened, map entry removed/re-keyed, enum index replaced) is judged by the reference decoder: rejected inputs must be rejected, still-decodable ones must give the reference value.",
+         "Every value of every compiled schema is decoded back as produced, with a trailing byte and in every re-framing with up to two deviations (indefinite containers, wider heads): equal value, exact consumption, borrowed fields inside the input. Every single-point damage (tag bumped/removed, array shortened, map entry removed/re-keyed, enum index replaced) is judged by the reference decoder: rejected inputs must be rejected, still-decodable ones must give the reference value. Scale points: as C08; index gaps of 255 positions in array encoding.",
          "trusted: refmodel::schema::schema_decode; inputs the documentation makes no promise for (indefinite enum pair, chunked strings, duplicate keys) are not judged", "5/C09"),
  "C10": (True, "exhaustive enumeration of (old, new) schema pairs produced by documented-compatible edits x writer values x both directions, against the reference decoder of the reader",
          "For every pair of compiled schemas related by one or two documented-compatible edits (10-type menu of optional fields at gap / new-highest indices, dropped fields, variants added behind optional fields for regular and index_only enums, unit -> tuple/struct variants), both encodings and both directions, every writer value is decoded by the reader: shared fields equal, unknown optional fields None, unknown fields ignored whatever their content (10-item menu incl. nested indefinite containers), unknown variants None without disturbing siblings; incompatible pairs must fail.",
          "trusted: refmodel::schema::schema_decode as the projection oracle", "5/C10"),
  "C07": (True, "exhaustive value/schema enumeration comparing CborLen with the real encoder (and exact-fit / one-short buffers)",
-         "Every small-domain value of every built-in CborLen instantiation, the integer width tables (exhaustive to 16 bits, 2^32 in the thorough tier), every Token variant with boundary payloads and every value of every generated derive schema: len(v) must equal the number of bytes written, a buffer of exactly that size must suffice and one byte less must fail with a write error.",
+         "Every small-domain value of every built-in CborLen instantiation, the integer width tables (exhaustive to 16 bits, 2^32 in the thorough tier), every Token variant with boundary payloads and every value of every generated derive schema: len(v) must equal the number of bytes written, a buffer of exactly that size must suffice and one byte less must fail with a write error. Scale points: field and variant indices over the whole u32 range, tags to u64::MAX, 12- and 257-field definitions, ByteArray<65536>.",
          "trusted: the real encoder is the oracle for the length (C03/C08 check the encoder itself)", "5/C07"),
  "C11": (True, "exhaustive enumeration of well-formed item sequences and of token sequences over a boundary alphabet; tokenise / re-encode compared with a reference head list",
          "All item trees up to the node bound (all head widths for small ones), all ordered pairs of small items, all 65536 half items except signalling NaNs and all simple values are tokenised and re-encoded: tokens must equal the reference pre-order head list and the bytes must be reproduced (shortest heads for non-preferred input); every token sequence up to length 3/4 over an 85-token alphabet must survive encode + tokenise value-equal; tokenizers started mid-stream through every constructor yield exactly the tokens of the rest; on all byte strings up to the bound tokenisation ends after at most one item per byte.",
          "trusted: refmodel parser/encoder and the reference head list in harness/checks/src/c11.rs", "5/C11"),
  "C13": (True, "exhaustive (value, capacity, sink) enumeration + closed state-space search over write_all sequences on small cursors, against a Vec-with-capacity model",
-         "Every small-domain value with an encoding <= 40 bytes is encoded into every sink kind at every capacity 0..=len+1: success iff it fits, identical bytes in all sinks, write error otherwise with an untouched tail, intact guard regions and a prefix of the encoding left behind; all sequences of <= 3/4 raw write_all calls of every length on cursors of capacity 0..=4 are compared step by step with the model (position, all-or-nothing).",
+         "Every small-domain value with an encoding <= 40 bytes is encoded into every sink kind at every capacity 0..=len+1: success iff it fits, identical bytes in all sinks, write error otherwise with an untouched tail, intact guard regions and a prefix of the encoding left behind; all sequences of <= 3/4 raw write_all calls of every length on cursors of capacity 0..=4 are compared step by step with the model (position, all-or-nothing). Scale points: values of 65537 .. 300017 elements into every sink at capacities around the encoding length, io sinks accepting 1 .. 131072 bytes per call.",
          "trusted: Vec-with-capacity model; guard regions only observe writes through safe code paths", "5/C13"),
  "C19": (True, "exhaustive input/tree enumeration against a length-limited fmt sink and a reference renderer of the documented notation",
-         "display() is run on all byte strings up to the bound, the hostile heads and all one-point deviations of small trees into a sink that refuses more than 16*len+512 bytes and under the input-access counter; for all well-formed trees up to the node bound in every head-width assignment, for boundary leaf values of every kind (all 65536 half items, integer lattice at all widths, strings with special characters) and for tokenizers started mid-stream the output must equal the reference rendering of the documented diagnostic notation. Every byte string of the totality sub-space is also judged by a reference display over arbitrary bytes (the notation before the first decoding problem, then the inline report), and 5 caller format specs must not change the notation.",
+         "display() is run on all byte strings up to the bound, the hostile heads and all one-point deviations of small trees into a sink that refuses more than 16*len+512 bytes and under the input-access counter; for all well-formed trees up to the node bound in every head-width assignment, for boundary leaf values of every kind (all 65536 half items, integer lattice at all widths, strings with special characters) and for tokenizers started mid-stream the output must equal the reference rendering of the documented diagnostic notation. Every byte string of the totality sub-space is also judged by a reference display over arbitrary bytes (the notation before the first decoding problem, then the inline report), and 5 caller format specs must not change the notation. Scale points: byte strings of up to 65537 bytes, chains of 127 .. 300 nested tags / arrays / maps and chunk sequences.",
          "trusted: refmodel::render (floats through Rust's {:e}), size constant 16*len+512", "5/C19"),
  "C02": (True, "exhaustive input enumeration (all byte strings <= 2/3/4 bytes, hostile heads, all one-point deviations of valid encodings) x state closure over Decoder positions, with unwind / allocation / work / drop monitors",
-         "Every decoding entry point (~210: typed decode of every table type, accessors, iterators driven to completion and abandoned, skip, tokens, probe, Size, display, drop-tracking element types) is run from every position of {0..=len+1, usize::MAX} on every byte string up to the bound, on ~6000 hostile heads and on every single-byte substitution / truncation / argument replacement of valid encodings. A call must return, stay in bounds, allocate at most a type constant plus a constant per input byte, perform at most 8*len+64 input accesses (hook H2) and drop decoded values exactly once; all ordered pairs of 26 calls on one decoder must behave like the second call on a fresh decoder at the position the first one left (no hidden state); fatal signals raised by the subject are verdicts.",
+         "Every decoding entry point (~210: typed decode of every table type, accessors, iterators driven to completion and abandoned, skip, tokens, probe, Size, display, drop-tracking element types) is run from every position of {0..=len+1, usize::MAX} on every byte string up to the bound, on ~6000 hostile heads and on every single-byte substitution / truncation / argument replacement of valid encodings. A call must return, stay in bounds, allocate at most a type constant plus a constant per input byte, perform at most 8*len+64 input accesses (hook H2) and drop decoded values exactly once; all ordered pairs of 26 calls on one decoder must behave like the second call on a fresh decoder at the position the first one left (no hidden state); fatal signals raised by the subject are verdicts. Scale points: all pairs of 15 x 12 extreme values in two-field arrays (both signs, definite and indefinite) and containers / chunk sequences / tag chains of 255 .. 65537 elements through every entry point.",
          "trusted: counting allocator, H2 counter, watchdog; inputs longer than the bound are reached only as deviations of valid encodings (<= 40 bytes)", "5/C02"),
  "C04": (True, "exhaustive tree enumeration x all head-width assignments x ~150 decoding operations, judged by a three-valued reference relation",
-         "All well-formed item trees up to the node bound in every admissible head-width assignment (plus single deviations for the next size) are decoded through every typed accessor, iterator and ~125 target types; an independent relation (must-ok / must-err / may) derived from the RFC data model decides each result, including exact end position and borrowed-slice provenance; type-directed re-framings (<= 2 deviations) of every small-domain value and every strict prefix are included. Every operation also runs on a decoder moved behind a leading item and on probe() of that decoder (same result, position shifted by the lead, parent left in place).",
+         "All well-formed item trees up to the node bound in every admissible head-width assignment (plus single deviations for the next size) are decoded through every typed accessor, iterator and ~125 target types; an independent relation (must-ok / must-err / may) derived from the RFC data model decides each result, including exact end position and borrowed-slice provenance; type-directed re-framings (<= 2 deviations) of every small-domain value and every strict prefix are included. Every operation also runs on a decoder moved behind a leading item and on probe() of that decoder (same result, position shifted by the lead, parent left in place). Scale points: arrays, maps, strings and chunk sequences of 255 .. 65537 elements through every operation; [u8;65536] and ByteArray<65536> in the type table.",
          "trusted: refmodel::shape::decode_ref (three-valued so that API-documented restrictions are never demanded), refmodel parser/encoder", "5/C04"),
  "C06": (True, "exhaustive tree enumeration x suffixes x prefixes + periodic deep-nesting families, against reference item boundaries and a decoder built from the public accessors",
-         "All item trees up to 6 nodes over a structural alphabet (definite/indefinite arrays and maps, chunked strings, tags) x 6 suffixes, all width assignments for <= 3 nodes, every strict prefix, every head form of every leaf kind (all argument widths, one- and two-byte simple values, the extremes of the integer range) in trees <= 4 nodes, and all 155 nesting patterns of period <= 3 at depth 10^4: skip() must end exactly at the item boundary, agree with full decoding, and fail on every strict prefix. skip() also runs from the middle of the input and through probe(); a panic of the subject inside the no-alloc probe builds is a verdict.",
+         "All item trees up to 6 nodes over a structural alphabet (definite/indefinite arrays and maps, chunked strings, tags) x 6 suffixes, all width assignments for <= 3 nodes, every strict prefix, every head form of every leaf kind (all argument widths, one- and two-byte simple values, the extremes of the integer range) in trees <= 4 nodes, and all 155 nesting patterns of period <= 3 at depth 10^4: skip() must end exactly at the item boundary, agree with full decoding, and fail on every strict prefix. skip() also runs from the middle of the input and through probe(); a panic of the subject inside the no-alloc probe builds is a verdict. Scale points: nesting 255 .. 65537 deep (155 patterns at 256 / 10000 / 65537, 30 at the exact 8- and 16-bit boundaries), in the alloc build and inside the no-alloc probes.",
          "trusted: refmodel encoder (item length by construction); no-alloc build covered by the C20 probe builds", "5/C06"),
  "C01": (True, "exhaustive value-space enumeration (all values of small types, boundary lattice, product domains) through the real encoder and decoder",
          "Every value of the small exhaustive domain of each of ~140 concrete instantiations of the built-in Encode/Decode impls (incl. the minicbor::bytes codec family and every Token variant) is encoded through every public entry point (to_vec, to_vec_with, encode, encode_with, Encoder::encode[_with]) and decoded back through every public entry point (alone and followed by 00/ff), compared through an independent mapping to the data model; scalars are swept exhaustively (16-bit types and char always, all 2^32 u32/i32/f32 in the thorough tier).",
          "trusted: ToModel mapping in harness/checks/src/types.rs, refmodel::shape::canon; 64-bit scalars are covered on the 2^k +- 3 lattice, not exhaustively", "5/C01"),
  "C03": (True, "exhaustive argument enumeration of Encoder methods + explicit-state DFS over balanced Encoder call sequences against an independent RFC 8949 parser/encoder",
-         "All arguments of every Encoder method (exhaustive up to 16 bits, 2^32 in the thorough tier, lattice for 64 bits), all small-domain values of the built-in Encode impls and every balanced call sequence up to depth 5/6 are executed on the real encoder; output must parse as exactly the expected items with the independent parser and be byte-identical to the reference preferred serialisation.",
+         "All arguments of every Encoder method (exhaustive up to 16 bits, 2^32 in the thorough tier, lattice for 64 bits), all small-domain values of the built-in Encode impls and every balanced call sequence up to depth 5/6 are executed on the real encoder; output must parse as exactly the expected items with the independent parser and be byte-identical to the reference preferred serialisation. Scale points: strings of 2^32 - 1, 2^32 and 2^32 + 5 bytes (lazily zeroed) through Encoder::bytes / str and the Encode impls into a counting sink.",
          "trusted: refmodel parser/encoder (RFC 8949 App. C transcription, self-checked by parse(encode(i)) == i); Encoder::simple(20..=31) recorded as known findings", "5/C03"),
  "C05": (True, "exhaustive product enumeration of (sign, head width, argument) x 24 integer targets with i128 oracle",
          "Every integer item (both signs, every head width able to hold the argument; all arguments < 2^16 and the 64-bit lattice, all 2^32 at widths 4/8 in the thorough tier) is decoded through every integer accessor/type, Int, char and the NonZero types; result must be Ok(n) iff n is representable; datatype() must name an accepting accessor; Int conversions checked on the lattice.",
@@ -59,13 +59,13 @@ CHECKS = {
          "All 65536 half patterns, a 2^24-ish lattice (thorough: all 2^32) of single patterns and a sign/exponent x boundary-mantissa lattice of double patterns are decoded through f16/f32/f64 and re-encoded; explicit half encoding is compared with a reference round-to-nearest-even conversion. Every single pattern of the tier also goes through the Encode impl, Token::F32 / Token::F16 and the serde bridge.",
          "trusted: refmodel::float (independent of the half crate, cross-checked against std widening); f64 space is a lattice", "5/C12"),
  "C14": (True, "deviation-bounded stateless exploration of a scripted std::io::Read / Write (all read compositions x Interrupted placements x truncation points)",
-         "Every schedule in which a scripted blocking source fragments the stream (all compositions of every read), injects up to N Interrupted errors and ends the stream at every byte offset is executed against the real Reader and compared with a list-of-values model; the Writer is explored the same way over all short-write splits. Both are built with every constructor (new, with_buffer over three kinds of recycled buffer), set_max_len is re-applied between calls, and frames whose payload length crosses a byte of the prefix (255..65537 bytes) or sits at the default maximum (512 KiB, 512 KiB + 1) are included under a deviation-bounded transfer-size menu. Exhaustive within the stated stream-length and deviation bounds. The limit is also lowered / raised after a frame on a used reader / writer, and a recycled buffer with more capacity than the default maximum must not raise the limit.",
+         "Every schedule in which a scripted blocking source fragments the stream (all compositions of every read), injects up to N Interrupted errors and ends the stream at every byte offset is executed against the real Reader and compared with a list-of-values model; the Writer is explored the same way over all short-write splits. Both are built with every constructor (new, with_buffer over three kinds of recycled buffer), set_max_len is re-applied between calls, and frames whose payload length crosses a byte of the prefix (255..65537 bytes) or sits at the default maximum (512 KiB, 512 KiB + 1) are included under a deviation-bounded transfer-size menu. Exhaustive within the stated stream-length and deviation bounds. The limit is also lowered / raised after a frame on a used reader / writer, and a recycled buffer with more capacity than the default maximum must not raise the limit. Scale points: frames of 512 KiB and 512 KiB + 1 under a limit of 600000, limits 2^31 - 1 .. u32::MAX; thorough tier: declared length 2^31 under u32::MAX (2 GiB buffer).",
          "trusted: the list-of-values model in harness/checks/src/io_common.rs, the explorer (mcx::explore), rustc; streams longer than the bound and more Interrupted errors than the budget are not explored", "5/C14"),
  "C15": (True, "deviation-bounded stateless exploration of poll/drop schedules over a scripted AsyncRead, hand-driven futures",
-         "All interleavings of source outcomes {deliver k, Pending, transient error, end of stream} with caller decisions {poll again, drop the future and re-issue read} are enumerated up to a deviation budget and executed on the real AsyncReader; the value sequence must equal the written list, each injected error surfaces exactly once, a torn frame never yields a value. Every constructor kind, set_max_len at quiescent points with a frame in flight, and frames of 255..65537 bytes and at the default maximum are included. The limit is also changed after a frame on a used reader, a recycled 640 KiB buffer must not raise the default limit, and the injected transient error is a layered io::Error that must be reported as such.",
+         "All interleavings of source outcomes {deliver k, Pending, transient error, end of stream} with caller decisions {poll again, drop the future and re-issue read} are enumerated up to a deviation budget and executed on the real AsyncReader; the value sequence must equal the written list, each injected error surfaces exactly once, a torn frame never yields a value. Every constructor kind, set_max_len at quiescent points with a frame in flight, and frames of 255..65537 bytes and at the default maximum are included. The limit is also changed after a frame on a used reader, a recycled 640 KiB buffer must not raise the default limit, and the injected transient error is a layered io::Error that must be reported as such. Scale points: frames of 512 KiB and 512 KiB + 1 under a limit of 600000, limits 2^31 - 1 .. u32::MAX; thorough tier: declared length 2^31 under u32::MAX (2 GiB buffer, deviation budget 1).",
          "trusted: list-of-values model, explorer, no-op waker driver; bounds on stream length, consecutive Pending, errors and drops are reported in the evidence", "5/C15"),
  "C16": (True, "deviation-bounded stateless exploration of write/sync schedules over a scripted AsyncWrite",
-         "All interleavings of sink outcomes {accept k of n, Pending, transient error, accept 0} with caller decisions {poll again, drop write/sync future then sync} are enumerated up to a deviation budget on the real AsyncWriter; sink bytes must equal the concatenation of complete frames at every idle point and be a prefix-extension while a frame is in flight. Every constructor kind, set_max_len while a frame is in flight, and values of 255..65537 bytes and at the default maximum are included. The limit is also changed after a value on a used writer, flush() is called while a frame is in flight, and the injected transient error is a layered io::Error that must be reported as such.",
+         "All interleavings of sink outcomes {accept k of n, Pending, transient error, accept 0} with caller decisions {poll again, drop write/sync future then sync} are enumerated up to a deviation budget on the real AsyncWriter; sink bytes must equal the concatenation of complete frames at every idle point and be a prefix-extension while a frame is in flight. Every constructor kind, set_max_len while a frame is in flight, and values of 255..65537 bytes and at the default maximum are included. The limit is also changed after a value on a used writer, flush() is called while a frame is in flight, and the injected transient error is a layered io::Error that must be reported as such. Scale points: values of 512 KiB and 512 KiB + 1 under a limit of 600000, limits 2^31 - 1 .. u32::MAX.",
          "trusted: concatenation-of-frames model, explorer; write is never re-issued after a cancellation without a completed sync (documented precondition)", "5/C16"),
 }
 
